@@ -149,3 +149,15 @@ Theorem C09_merge_exact_n_err_partial : forall (s0 : sigT) (ss : list sigT) (e :
 Proof. exact @MergeExactN.merge_exact_n_err_partial. Qed.
 Print Assumptions C09_merge_exact_n_err_partial.
 
+
+(* ---- idempotence for any number of copies, and of signatures that differ only in provenance
+   (Proofs/MergeIdemN.v): the binary step generalised to operands with equal buckets, lifted by the fold ---- *)
+From Sigtools.Proofs Require Import MergeIdemN.
+Theorem C09_merge_same_params : forall s : Base.sigT, Algebra.valid_sig (Base.params s) = true -> (forall p : Base.param, List.In p (Base.params s) -> MergeIdem.ann_wf p) -> forall ss : list Base.sigT, List.Forall (fun x : Base.sigT => Base.params x = Base.params s) ss -> exists r : Base.sigT, Algebra.merge (s :: ss) = Base.Ok r /\ Base.params r = Base.params s.
+Proof. exact @MergeIdemN.merge_same_params. Qed.
+Print Assumptions C09_merge_same_params.
+
+Theorem C09_merge_idempotent_n : forall s : Base.sigT, Algebra.valid_sig (Base.params s) = true -> (forall p : Base.param, List.In p (Base.params s) -> MergeIdem.ann_wf p) -> forall n : nat, exists r : Base.sigT, Algebra.merge (s :: List.repeat s n) = Base.Ok r /\ Base.params r = Base.params s.
+Proof. exact @MergeIdemN.merge_idempotent_n. Qed.
+Print Assumptions C09_merge_idempotent_n.
+
